@@ -1,19 +1,19 @@
 SPECIFICATION Spec
 CONSTANTS
-  N = 1
-  Kinds <- K1e
+  N = 2
+  Kinds <- K2h
   Units = 2
   Cap = 1
   DropParentCloseW = FALSE
-  FailAt = 0
+  FailAt = 2
   LateFail = "clean"
-  HereAt = 0
-  HereUnits = 0
+  HereAt = 2
+  HereUnits = 2
   SigpipeMode = "ignored"
   CapRedirect = FALSE
   CapCloseMode = "always"
   CapReadMode = "concurrent"
-  Capture = TRUE
+  Capture = FALSE
 INVARIANT ShellAlive
 INVARIANT ExecFds
 INVARIANT ShellFdsRestored
